@@ -25,9 +25,10 @@ class Ob:
     kind 'oob'  : this piece is outside the stated bounds (counted, not a verdict)
     """
 
-    __slots__ = ("kind", "label", "impl", "ref", "hyps", "ok", "detail", "exc", "sig")
+    __slots__ = ("kind", "label", "impl", "ref", "hyps", "ok", "detail", "exc", "sig", "tol")
 
-    def __init__(self, kind, label, impl=None, ref=None, hyps=(), ok=None, detail="", exc=None, sig=None):
+    def __init__(self, kind, label, impl=None, ref=None, hyps=(), ok=None, detail="", exc=None, sig=None, tol=0):
+        self.tol = tol
         self.kind = kind
         self.label = label
         self.impl = impl
@@ -50,15 +51,24 @@ class Ctx:
         self.symbolic = D.symbolic
 
     # -- obligations
-    def eq(self, label, impl, ref, pivots=(), sig=None):
+    def eq(self, label, impl, ref, pivots=(), sig=None, exc_sig=None, hyps=()):
         D = self.D
         try:
             it = D.term(impl)
         except (HarnessError, TypeError, ValueError) as e:
-            self.obs.append(Ob("exc", label, exc=TypeError(f"result is not a weight of the semiring: {impl!r} ({type(impl).__name__})"), sig=sig))
+            self.obs.append(Ob("exc", label, exc=TypeError(f"result is not a weight of the semiring: {impl!r} ({type(impl).__name__})"),
+                               sig=exc_sig or sig, detail="not-a-weight"))
             return
-        hyps = [self.gt0(p) for p in pivots]
-        self.obs.append(Ob("eq", label, impl=it, ref=ref, hyps=hyps, sig=sig))
+        if self.P.get("canary"):
+            ref = ref + ref + self.num.one  # deliberately wrong oracle: the run must report it
+        hs = [self.gt0(p) for p in pivots] + list(hyps)
+        self.obs.append(Ob("eq", label, impl=it, ref=ref, hyps=hs, sig=sig))
+
+    def eq_terms(self, label, t1, t2, hyps=(), sig=None, tol=0):
+        "both sides already are numbers of the domain (z3 terms / python numbers)"
+        if self.P.get("canary"):
+            t2 = t2 + t2 + 1
+        self.obs.append(Ob("eq", label, impl=t1, ref=t2, hyps=list(hyps), sig=sig, tol=tol))
 
     def gt0(self, p):
         if self.symbolic:
@@ -67,7 +77,10 @@ class Ctx:
         return p > 0
 
     def check(self, label, ok, detail="", sig=None):
-        self.obs.append(Ob("bool", label, ok=bool(ok), detail=detail, sig=sig))
+        ok = bool(ok)
+        if self.P.get("canary"):
+            ok = not ok
+        self.obs.append(Ob("bool", label, ok=ok, detail=detail, sig=sig))
 
     def oob(self, label, why=""):
         self.obs.append(Ob("oob", label, detail=why))
@@ -213,7 +226,12 @@ def concrete_failures(obs):
     bad = []
     for o in obs:
         if o.kind == "eq":
-            if all(bool(h) for h in o.hyps) and Fraction(o.impl) != Fraction(o.ref):
+            if not all(bool(h) for h in o.hyps):
+                continue
+            if o.tol:
+                if abs(float(o.impl) - float(o.ref)) > o.tol * max(1.0, abs(float(o.ref))):
+                    bad.append((o, f"impl={o.impl} ref={o.ref}"))
+            elif Fraction(o.impl) != Fraction(o.ref):
                 bad.append((o, f"impl={o.impl} ref={o.ref}"))
         elif o.kind == "bool":
             if not o.ok:
@@ -232,6 +250,7 @@ def run_case(prop, name, params, budget=None):
     eng = Engine(timeout_ms=budget.get("query_ms", 10000), max_paths=budget.get("max_paths", 4096))
     E.set_engine(eng)
     D = make_domain(domain, True)
+    D.fixed = dict(params.get("fixed", {}))
     entered = set()
     first = [True]
 
@@ -262,10 +281,39 @@ def run_case(prop, name, params, budget=None):
                obligations=0, discharged=0, inconclusive=0, oob=0, aborted=0, cuts=0,
                bool_checks=0, nontrivial=0, violations=[], samples=[], notes=[],
                vacuity_sat=0, star_obligations=0, star_discharged=0)
-    solver = z3.Solver()
-    solver.set("timeout", budget.get("ob_ms", 20000))
+    ob_ms = budget.get("ob_ms", 20000)
     tz = 0.0
     nq = 0
+
+    class _Fresh:
+        """A fresh (non-incremental) solver per query: z3 then uses its full tactic pipeline
+        (nlsat for non-linear reals) and honours the timeout; push/pop solving did neither reliably."""
+
+        def __init__(self):
+            self.base = []
+            self.stack = []
+            self.last = None
+
+        def push(self):
+            self.stack.append(len(self.base))
+
+        def pop(self):
+            del self.base[self.stack.pop():]
+
+        def add(self, *lits):
+            self.base.extend(lits)
+
+        def check(self):
+            s = z3.Solver()
+            s.set("timeout", ob_ms)
+            s.add(*self.base)
+            self.last = s
+            return s.check()
+
+        def model(self):
+            return self.last.model()
+
+    solver = _Fresh()
     seen_sig = set()
     for pr in paths:
         res["cuts"] += pr.cuts
@@ -284,6 +332,7 @@ def run_case(prop, name, params, budget=None):
         for h in pr.hyps:
             solver.add(h)
         checked_vacuity = False
+        rcache = {}
         for o in obs:
             if o.kind == "oob":
                 res["oob"] += 1
@@ -293,32 +342,35 @@ def run_case(prop, name, params, budget=None):
             model = None
             if o.kind == "eq":
                 try:
-                    d, d1, d2 = S.cross_diff(o.impl, o.ref)
-                except ValueError as e:
-                    res["inconclusive"] += 1
-                    res["notes"].append(f"normaliser: {e}")
-                    continue
+                    d, d1, d2 = S.cross_diff(o.impl, o.ref, rcache)
+                except ValueError:
+                    # outside the rational fragment (uninterpreted functions, If): ask z3 directly
+                    d, d1, d2 = z3.simplify(o.impl - o.ref), z3.RealVal(1), z3.RealVal(1)
                 trivial = z3.is_rational_value(d) and d.as_fraction() == 0
                 if not (z3.is_rational_value(o.ref) and o.ref.as_fraction() == 0):
                     res["nontrivial"] += 1
-                solver.push()
-                for h in o.hyps:
-                    solver.add(h)
-                if not trivial:
-                    solver.add(d1 != 0, d2 != 0)
-                solver.add(d != 0)
-                t = time.time()
-                r = solver.check()
-                tz += time.time() - t
-                nq += 1
-                if r == z3.unsat:
+                if trivial:
+                    # z3's rewriter already reduced impl - ref to the constant 0: `0 != 0` is unsat
                     verdict = "discharged"
-                elif r == z3.sat:
-                    verdict = "sat"
-                    model = solver.model()
+                    res["by_rewriter"] = res.get("by_rewriter", 0) + 1
                 else:
-                    verdict = "unknown"
-                solver.pop()
+                    solver.push()
+                    for h in o.hyps:
+                        solver.add(h)
+                    solver.add(d1 != 0, d2 != 0)
+                    solver.add(d != 0)
+                    t = time.time()
+                    r = solver.check()
+                    tz += time.time() - t
+                    nq += 1
+                    if r == z3.unsat:
+                        verdict = "discharged"
+                    elif r == z3.sat:
+                        verdict = "sat"
+                        model = solver.model()
+                    else:
+                        verdict = "unknown"
+                    solver.pop()
                 if len(res["samples"]) < 3 and not trivial and verdict == "discharged":
                     res["samples"].append(dict(label=o.label, impl=_short(o.impl), ref=_short(o.ref), verdict="unsat"))
                 elif len(res["samples"]) < 2 and verdict == "discharged" and res["nontrivial"] and not z3.is_rational_value(o.ref):
@@ -425,3 +477,15 @@ def replay_job(job):
     bad = [(o.label, why) for o, why in concrete_failures(obs)]
     hit = [b for b in bad if b[0] == job.get("label")]
     return dict(violations=[], replay=dict(label=job.get("label"), reproduced=bool(hit), observed=hit[:1], all_failures=bad[:10]))
+
+
+def split_job(job, bits):
+    """Split a job into 2^len(bits) jobs, each fixing the zero/non-zero pattern of the weights in `bits`."""
+    import itertools
+
+    out = []
+    for pat in itertools.product([0, 1], repeat=len(bits)):
+        j = dict(job)
+        j["params"] = dict(job["params"], fixed={str(k): b for k, b in zip(bits, pat)})
+        out.append(j)
+    return out
